@@ -160,6 +160,33 @@ int main() {
       });
     }
   }
+  // large arguments (family "big"): results beyond 2^64 and beyond 2^53 - an intermediate integer type, or a
+  // detour through a floating type, cannot hide here.  Exact tie only (no rounding bound is claimed for these).
+  {
+    const size_t bigfac[] = {13, 18, 20, 21, 22, 25, 30};
+    for (size_t n : bigfac) {
+      instance(nm("bigfaculty", {n}), [n] {
+        begin_kernel();
+        return std::vector<Sym>{bs::internal::faculty<Sym>(n)};
+      });
+    }
+    const size_t bigratio[][2] = {{21, 0}, {22, 2}, {25, 5}, {30, 12}, {0, 21}, {3, 25}, {40, 20}};
+    for (auto &cd : bigratio) {
+      const size_t c = cd[0], d = cd[1];
+      instance(nm("bigfacratio", {c, d}), [c, d] {
+        begin_kernel();
+        return std::vector<Sym>{bs::internal::facultyRatio<Sym>(c, d)};
+      });
+    }
+    const size_t bigbinom[][2] = {{22, 11}, {25, 10}, {30, 15}, {40, 20}, {40, 3}, {34, 17}};
+    for (auto &nk : bigbinom) {
+      const size_t n = nk[0], k = nk[1];
+      instance(nm("bigbinom", {n, k}), [n, k] {
+        begin_kernel();
+        return std::vector<Sym>{bs::internal::binomialCoefficient<Sym>(n, k)};
+      });
+    }
+  }
   // internal::binomialCoefficient<Sym>(n, k), n, k = 0..8
   for (size_t n = 0; n <= 8; n++) {
     for (size_t k = 0; k <= 8; k++) {
